@@ -1380,7 +1380,7 @@ def est_one(ck, hbin, p):
 
 
 def est_jobs(ck):
-    n = 54 if ck.tier == "quick" else 450
+    n = 54 if ck.tier == "quick" else 320
     r = ck.rng.fork("est")
     return [gen_est_problem(r.fork("p%d" % i), i, big=ck.tier != "quick") for i in range(n)]
 
@@ -1642,7 +1642,7 @@ def projest_one(ck, hbin, p):
 
 
 def projest_jobs(ck):
-    n = 44 if ck.tier == "quick" else 400
+    n = 44 if ck.tier == "quick" else 280
     r = ck.rng.fork("projest")
     return [gen_proj_problem(r.fork("p%d" % i), i, big=ck.tier != "quick") for i in range(n)]
 
@@ -2218,7 +2218,7 @@ def sbl_jobs(ck):
     quick = ck.tier == "quick"
     r = ck.rng.fork("sbl")
     out = []
-    for i in range(40 if quick else 400):
+    for i in range(40 if quick else 280):
         p, sc_ = gen_sbl_ops(r.fork("o%d" % i), i)
         out.append(("ops", p, sc_))
     for i in range(16 if quick else 150):
@@ -2294,7 +2294,7 @@ def plan(ck):
     quick = ck.tier == "quick"
     out = [("corpus", s) for _, s in corpus()]
     modes = ["int", "dyadic", "ratio", "nonrep", "denormal"]
-    nrand = 20 if quick else 160
+    nrand = 20 if quick else 110
     for m in modes:
         for i in range(nrand):
             r = ck.rng.fork("rand-%s-%d" % (m, i))
@@ -2309,7 +2309,7 @@ def plan(ck):
         out.append(("drift", gen_drift(ck.rng.fork("drift%d" % i))))
     for i in range(10 if quick else 100):
         out.append(("outside-contract", gen_nonfinite(ck.rng.fork("wild%d" % i))))
-    for i, top in enumerate([9, 17, 33, 65, 66] if quick else [9, 17, 33, 65, 66, 129, 130, 257, 513, 1025]):
+    for i, top in enumerate([9, 17, 33, 65, 66] if quick else [9, 17, 33, 65, 66, 129, 130, 257, 513]):
         for m in (["int"] if quick else ["int", "dyadic", "nonrep"]):
             out.append(("grow-shrink", gen_grow_shrink(ck.rng.fork("gs-%s-%d" % (m, top)), top, m)))
     for n in range(1, 34):
